@@ -5,6 +5,7 @@ import random
 from fractions import Fraction
 
 from . import families as F
+from . import histories as H
 
 ID = "C08"
 HEAVY = False
@@ -59,6 +60,14 @@ def tasks(tier, seed):
     for comp in COMPUTERS[:3]:
         for K in (fam4 if tier == "thorough" else F.sample(fam4, 96, seed, "c08ord")):
             add("order", 4, K, comp)
+    # seeded operation histories on one object (harness/histories.py) against a fresh object with the same final knowledge
+    for comp in COMPUTERS[:4]:
+        for K in fam3:
+            for j in range(2 if tier == "quick" else 5):
+                add("ops", 3, K, comp, ops=f"ops{j}")
+    for comp in COMPUTERS[:3]:
+        for K in F.sample([k for k in fam4 if len(k) < len(F.extras(4))], 32 if tier == "quick" else 200, seed, "c08ops"):
+            add("ops", 4, K, comp, ops="ops0")
     # environment undo
     for comp in ["superadditive", "superadditive_cached", "sam_apx_1"]:
         for gap in ["exploitability", "l1_norm", "l2_norm", "linf_norm"]:
@@ -109,6 +118,9 @@ def setup(params, inp, lg):
                 for who in "pq":
                     inp.real(f"{who}L{S}")
                     inp.real(f"{who}U{S}")
+    if params["kind"] == "ops":
+        for nm in H.stale_names(H.plan(n, params["K"], params["ops"])):
+            inp.real(nm)
     if _needs_sam(params):
         return F.sam_constraints(v, n, lg)
     return []
@@ -164,6 +176,16 @@ def scenario(pk, params, inp):
             if who == "p":
                 g.compute_bounds()
                 res["p2"] = _read(pk, g, n)
+        return res
+    if params["kind"] == "ops":
+        direct = pk.game.IncompleteCooperativeGame(n, comp)
+        direct.set_known_values([v[S] for S in known], [C(S) for S in known])
+        direct.compute_bounds()
+        g = H.apply(pk, pk.game.IncompleteCooperativeGame(n, comp), v, H.plan(n, params["K"], params["ops"]), inp)
+        g.compute_bounds()
+        res = {"direct": _read(pk, direct, n), "hist": _read(pk, g, n)}
+        g.compute_bounds()
+        res["hist2"] = _read(pk, g, n)
         return res
     if params["kind"] == "order":
         rnd = random.Random(params["key"])
@@ -254,6 +276,8 @@ def claims(params, inp, out, lg):
     if params["kind"] == "stale":
         return _eq_tables(lg, out["p"], out["q"], n, "stale-independent") + \
             _eq_tables(lg, out["p"], out["p2"], n, "idempotent")
+    if params["kind"] == "ops":
+        return _eq_tables(lg, out["direct"], out["hist"], n, "history-free") + _eq_tables(lg, out["hist"], out["hist2"], n, "idempotent")
     if params["kind"] == "order":
         cl = []
         for tag in ("fwd", "rev", "detour", "bulk"):
@@ -279,7 +303,7 @@ def canaries(params, inp, out, lg):
             return []
         S = unk[0]
         return [(f"canary-result-is-stale:S={S}", lg.eq(out["p"]["L"][S], inp.real(f"pL{S}")))]
-    if params["kind"] == "order":
+    if params["kind"] in ("order", "ops"):
         return [("canary-upper-equals-lower", lg.And([lg.eq(out["direct"]["L"][S], out["direct"]["U"][S]) for S in range(2 ** n)]))]
     return [("canary-reward-positive", lg.gt(out["before"]["reward"], 1))]
 
@@ -295,5 +319,8 @@ def test_vectors(params):
             for who in "pq":
                 d[f"{who}L{S}"] = Fraction(rnd.randint(-40, 40), 4)
                 d[f"{who}U{S}"] = Fraction(rnd.randint(-40, 40), 4)
+        for k in range(12):
+            d[f"hs{k}L"] = Fraction(rnd.randint(-40, 40), 4)
+            d[f"hs{k}U"] = Fraction(rnd.randint(-40, 40), 4)
         vecs.append(d)
     return vecs
